@@ -322,7 +322,17 @@ class _FileModifyProxy:
     def copytree(self, src, dst, **kwargs):
         """Copy tree src to dst."""
         logger.more(f"Copy tree '{_safe_relpath(src)}' -> '{_safe_relpath(dst)}'.")
-        shutil.copytree(src, dst, copy_function=self.copy, **kwargs)
+        if self.dry_run:
+            # shutil.copytree creates the destination directories itself, so
+            # only walk the source tree and report the files that would be copied.
+            for root, _, filenames in os.walk(src):
+                for filename in filenames:
+                    self.copy(
+                        os.path.join(root, filename),
+                        os.path.join(dst, os.path.relpath(root, src), filename),
+                    )
+        else:
+            shutil.copytree(src, dst, copy_function=self.copy, **kwargs)
 
     @contextmanager
     def create_backup(self, path):
